@@ -276,10 +276,15 @@ def run(ctx):
         for kinds in menu:
             work.append((list(kinds), list(s), os.path.join(base, "g%d_%d" % (i, len(work))), inputs, solo))
     traces = core.pmap(run_gated, work, procs=8)
-    if thorough:
-        gen3 = ctx.tlc("MC_Concurrent", GEN_CFG % 3, workers=4, label="schedules of three processes", timeout=1800)
+    if True:
+        if thorough:
+            gen3 = ctx.tlc("MC_Concurrent", GEN_CFG % 3, workers=4, label="all schedules of three processes", timeout=1800)
+        else:
+            gen3 = ctx.tlc("MC_Concurrent", GEN_CFG % 3, workers=1, simulate="num=40", depth=20, extra=["-seed", str(ctx.seed)],
+                           label="simulated schedules of three processes", expect="inv")
         s3 = sorted(set(tuple(int(x) for x in re.findall(r"\d+", m)) for m in re.findall(r"<<\"SCHED\", <<([0-9, ]+)>>>>", gen3.out)))
-        pick = ctx.rng.sample(s3, min(300, len(s3)))
+        ctx.extra["three_process_schedules"] = len(s3)
+        pick = ctx.rng.sample(s3, min(300 if thorough else 24, len(s3)))
         work3 = [([ctx.rng.choice(["gff", "gtf"]) for _ in range(3)], list(s), os.path.join(base, "h%d" % i), inputs, solo) for i, s in enumerate(pick)]
         traces += core.pmap(run_gated, work3, procs=5)
     for idx, clause, at in judge(ctx, traces, "gated"):
